@@ -37,8 +37,9 @@ class Chooser:
         return sum(1 for _, c, _ in self.trace if c)
 
 
-def explore(body: t.Callable[[Chooser], t.Any], bound: int, on_exec: t.Callable[[Chooser, t.Any], None], max_execs: int = 10**9) -> t.Dict[str, int]:
-    """Run body for every choice sequence with at most `bound` non-default choices. Returns counters."""
+def explore(body: t.Callable[[Chooser], t.Any], bound: int, on_exec: t.Callable[[Chooser, t.Any], None], max_execs: int = 10**9, root_filter: t.Optional[t.Callable[[int], bool]] = None) -> t.Dict[str, int]:
+    """Run body for every choice sequence with at most `bound` non-default choices. Returns counters.
+    root_filter(i): restrict the FIRST deviation to choice points i it accepts (to shard one exploration over several workers)."""
     stats = {"executions": 0, "choice_points": 0, "max_depth": 0, "capped": 0}
     stack: t.List[t.Tuple[t.List[int], t.List[t.Tuple[int, str]]]] = [([], [])]
     while stack:
@@ -58,6 +59,8 @@ def explore(body: t.Callable[[Chooser], t.Any], bound: int, on_exec: t.Callable[
         sig = [(n, lab) for n, _, lab in ch.trace]
         # alternatives at every choice point past the prefix (pushed in reverse so that shallow, small ones run first)
         for i in range(len(ch.trace) - 1, len(prefix) - 1, -1):
+            if root_filter is not None and not prefix and not root_filter(i):
+                continue
             n, c, lab = ch.trace[i]
             for alt in range(n - 1, 0, -1):
                 stack.append((ch.choices[:i] + [alt], sig[: i + 1]))
